@@ -1,9 +1,9 @@
 package callsim
 
 import (
-	"math"
 	"fmt"
 	"hash/fnv"
+	"math"
 	"os"
 	"path/filepath"
 
